@@ -128,6 +128,10 @@ def main(tier: str, seed: int) -> int:
             dict(kinds=['linear', 'conv', 'bn'], frozen=['none', 'all'],
                  max_leaves=3, max_depth=2, patterns=trees.PATTERNS[5:9],
                  max_pat=2, share=True, simulate=3000),
+            # sibling names that are string prefixes of one another
+            dict(kinds=['linear', 'conv', 'act'], frozen=['none'],
+                 max_leaves=3, max_depth=2, patterns=trees.PATTERNS[:3],
+                 max_pat=1, share=False, segs=('a', 'ab', 'a_b')),
         ]
     else:
         scopes = [
@@ -139,6 +143,10 @@ def main(tier: str, seed: int) -> int:
             dict(kinds=K, frozen=['none', 'part', 'all'], max_leaves=5,
                  max_depth=3, patterns=trees.PATTERNS, max_pat=3, share=True,
                  simulate=1500),
+            dict(kinds=['linear', 'conv', 'linsub', 'act', 'empty'],
+                 frozen=['none', 'all'], max_leaves=3, max_depth=2,
+                 patterns=trees.PATTERNS[:4], max_pat=1, share=True,
+                 segs=('a', 'ab', 'a_b', 'b')),
         ]
     gscope = dict(kinds=['colpar', 'rowpar', 'linear', 'act', 'empty'],
                   frozen=['none', 'part', 'all'], max_leaves=2, max_depth=2,
